@@ -19,7 +19,7 @@ def rule_dual_nonneg(repo, rep):
            '_lambda[e] -= alpha with alpha = min(_lambda[e], .) for the same '
            'index e (modulo commutativity): lambda - min(lambda, x) >= 0 is '
            'an inductive invariant of both projection loops')
-  f = repo.get_func('itml._BaseITML._fit')
+  f = astutil.inline_helpers(repo, repo.get_func('itml._BaseITML._fit'))
   rep.analysed(f)
   # the dual vector: the array updated with -= inside the loops
   writes = []
@@ -175,7 +175,7 @@ def rule_rank_one(repo, rep):
            'written only by A += outer(A v, (A v) * beta) with v a row of '
            'the constraint differences (Sherman-Morrison: the inverse changes '
            'by a multiple of v v^T)')
-  f = repo.get_func('itml._BaseITML._fit')
+  f = astutil.inline_helpers(repo, repo.get_func('itml._BaseITML._fit'))
   stores = [n for n in ast.walk(f.node) if isinstance(n, ast.Assign) and
             ast.unparse(n.targets[0]) == 'self.components_']
   if not stores or not (isinstance(stores[-1].value, ast.Call) and
@@ -281,7 +281,7 @@ def rule_update_formulas(repo, rep):
            'gamma/(gamma+1) (1/p - 1/xi_i)), beta = delta alpha / (1 - delta '
            'alpha p), xi_i <- gamma xi_i / (gamma + delta alpha xi_i), as '
            'rational functions of (p, xi_i, alpha, gamma)')
-  f0 = repo.get_func('itml._BaseITML._fit')
+  f0 = astutil.inline_helpers(repo, repo.get_func('itml._BaseITML._fit'))
   base_roles = _itml_roles(repo, f0)
   An = next((k for k, v in base_roles.items() if v == 'A'), None)
   loops0 = [n for n in ast.walk(f0.node) if isinstance(n, ast.For) and
@@ -391,7 +391,7 @@ def rule_bounds(repo, rep):
            'asarray, astype(float), copy): same two numbers in the same '
            'order; default bounds are the 5th and 95th percentile of the '
            'pairwise distances among the distinct points of the pairs')
-  f = repo.get_func('itml._BaseITML._fit')
+  f = astutil.inline_helpers(repo, repo.get_func('itml._BaseITML._fit'))
   rep.analysed(f)
   br = [n for n in f.node.body if isinstance(n, ast.If) and
         ast.unparse(n.test) in ('bounds is None', 'bounds is not None')]
